@@ -89,6 +89,11 @@ CLAIMED = {
         note="Trusted: Lean kernel (+propext, Classical.choice, Quot.sound), Model/C12.lean + Model/Graph.lean as models of the Python / networkx container semantics (validated by differential testing), gen_tables*.py, the reference valence table refRows. Hypothesis WF g (distinct ids, one adjacency row per node, neighbours are nodes) is evaluated by the driver on every case.",
         technique="Lean 4 proof (fold invariant over the heavy-atom loop; decide on regenerated tables) + model/implementation correspondence check",
         design_ref="6/C12"),
+    "C16": dict(
+        text="Lean 4 theorems C16.reactant_side, product_side (+ product_outside_centre / product_on_centre), one_per_match(_eq), one_per_embedding (under the explicit VF2 contract MatchesContract), applyRule_eq (closed form of the loop), unique_classes (relative to the WL hash parameter), connected_only(_all/_connected), limit / limit_prefix / limit_length, input_untouched, rc_of_dpo(_refuses/_accepts), enumerator soundness/completeness/no-duplicates (mem_monos_isMono, isMono_mem_monos, monos_nodup), contractOk_sound, specCheck_sound, applyRule_spec; the model of apply_rule takes VF2's matches and the WL hashes as parameters; every case checks VF2's contract with the model's own proved-exact monomorphism enumerator; results compared as multisets with the implementation; proved-sound executable spec on every implementation answer; input graph snapshotted; GML text layer validated by rendering random rules (test).",
+        note="Trusted: Lean kernel (+propext, Classical.choice, Quot.sound), Model/C16.lean (validated), networkx GraphMatcher.subgraph_monomorphisms_iter under MatchesContract (checked per case; a mismatch is ERROR exit 2), networkx weisfeiler_lehman_graph_hash (iterations=3) as the hash parameter (computed by the harness on the ITS the spec prescribes), atom-map completion inside ITS() is C20's subject. Completeness of specCheck on the model output is checked at run time.",
+        technique="Lean 4 proof (closed form of the match loop, list lemmas for dedup/filter/take, exact monomorphism enumerator) + model/implementation correspondence check with contract checks on the external matcher",
+        design_ref="6/C16"),
     "C17": dict(
         text="Lean 4 theorem C17.exact / C17.exact_ids (with sound, assert_never_fails, fuel_suffices, sequences_distinct, labels_are_induced_distances, unique_sets, complete, relabel_invariant, order_independent, specCheck_sound): for every simple graph and anchor the model of enumerateCIS/node_induced_connected_subgraphs raises nothing and yields every connected node set containing the anchor exactly once and nothing else, whatever the ids, anchor position and adjacency order; the model is compared with the real generator (set level for the verdict, generator order recorded) on the whole graph atlas (<=6 nodes quick, <=7 thorough) x anchors x relabellings and random larger graphs, and the proved-sound executable spec is applied to every implementation output.",
         note="Trusted: Lean kernel (+propext, Classical.choice, Quot.sound), Model/C17.lean as model of the Python (validated), nx.relabel_nodes (its output is taken from the real call and cross-checked by relabelConsistent), Python list/int/inf semantics; the optional DAG argument is not modelled.",
